@@ -96,6 +96,8 @@ def perm_step(E, rank, order, group=False):
         y1 = P1.cost(x1); y2 = P2.cost(x2)
         Q1, Q2 = P1, P2
     E.reachable('perm')
+    for nm_, Q_, B_ in (('Q1', Q1, B1), ('Q2', Q2, B2)):
+        E.claim_true('type-labels-kept[%s]' % nm_, all(list(getattr(Q_, w_).types) == list(B_.types) for w_ in ('totalCorr', 'directCorr', 'omega', 'GammaOut')))
     inter = []; lem = []
     if E.sym:
         inter = [v for Q in (Q1, Q2) for v in (Q.totalCorr.data[idx] for idx in _np.ndindex(*Q.totalCorr.data.shape)) if hasattr(v, 'n')]
@@ -114,9 +116,11 @@ def perm_step(E, rank, order, group=False):
                 E.claim_eq('directCorr[%s%s][k%d]' % (a, b, j), P2.directCorr.data[j, ia, ib], P1.directCorr.data[j, ja, jb])
                 E.claim_eq('omega[%s%s][k%d]' % (a, b, j), P2.omega.data[j, ia, ib], P1.omega.data[j, ja, jb])
                 E.claim_eq('totalCorr[%s%s][k%d]' % (a, b, j), Q2.totalCorr.data[j, ia, ib], Q1.totalCorr.data[j, ja, jb])
+                E.claim_eq('totalCorr-by-name[%s,%s][k%d]' % (a, b, j), Q2.totalCorr[a, b][j], Q1.totalCorr[a, b][j])
             for i in range(N):
                 E.claim_eq('cost[%s%s][r%d]' % (a, b, i), y2[i * n * n + ia * n + ib], y1[i * n * n + ja * n + jb], abstract=inter, lemmas=lem)
-    E.claim('canary', E.eq(P2.directCorr.data[0, 0, 0], P1.directCorr.data[0, 0, 0]), canary=True)
+    ci = [i for i in range(rank) if order[i] != base[i]][0]       # a position whose type differs between the two orders
+    E.claim('canary', E.eq(P2.directCorr.data[0, ci, ci], P1.directCorr.data[0, ci, ci]), canary=True)
 
 
 def split_step(E, kind, closure, flag, cross):
